@@ -107,6 +107,10 @@ Proof.
     rewrite Hu. unfold len. rewrite Nat2N.id, take_app. reflexivity.
 Qed.
 
+Local Arguments be : simpl never.
+Local Arguments take : simpl never.
+Local Arguments unbe : simpl never.
+
 (* sequences *)
 Lemma enc_seq_length_le f l bs :
   enc_seq true f l = Some bs -> (List.length l <= List.length bs)%nat.
@@ -161,7 +165,8 @@ Proof.
     destruct v as [| | |l]; try discriminate. apply andb_true_iff in Hw as [Hl Hall].
     apply N.leb_le in Hl.
     destruct (max_int32 <? len l) eqn:Hmx; [apply N.ltb_lt in Hmx; lia|].
-    destruct (enc_seq true (enc t) l) as [be_|] eqn:Hs; [|discriminate]. injection He as <-.
+    destruct (enc_seq true (enc t) l) as [be_|] eqn:Hs; [|discriminate].
+    assert (Hbs : be 4 (len l) ++ be_ = bs) by congruence. subst bs. clear He.
     rewrite <- app_assoc.
     pose proof (take_app (be 4 (len l)) (be_ ++ rest)) as Ht. rewrite be_length in Ht. rewrite Ht.
     cbn zeta.
@@ -199,3 +204,146 @@ Lemma dec_enc t v bs rest :
 Proof. apply (proj1 dec_enc_mut). Qed.
 
 (* a well-typed value is rejected by the codec only for a slice of zero-length elements *)
+
+(* ================================================================== Part B *)
+
+Fixpoint nser (fs : fields) : nat :=
+  match fs with FNil => O | FCons i _ r => ((if f_ser i then 1 else 0) + nser r)%nat end.
+
+Lemma nser_fapp a b : nser (fapp a b) = (nser a + nser b)%nat.
+Proof. induction a as [|i t r IH]; cbn [fapp nser]; [reflexivity | rewrite IH; lia]. Qed.
+
+Lemma wt_fields_len fs : forall vs, wt_fields fs vs = true -> List.length vs = nser fs.
+Proof.
+  induction fs as [|i t r IH]; intros vs H; cbn [wt_fields nser] in *.
+  - destruct vs; [reflexivity | discriminate].
+  - destruct (f_ser i).
+    + destruct vs as [|v vs]; [discriminate|]. apply andb_true_iff in H as [_ H].
+      cbn [List.length]. rewrite (IH _ H). reflexivity.
+    + now apply IH.
+Qed.
+
+Lemma enc_fields_app f1 f2 : forall l1 l2, List.length l1 = nser f1 ->
+  enc_fields (fapp f1 f2) (l1 ++ l2) =
+  match enc_fields f1 l1, enc_fields f2 l2 with Some a, Some b => Some (a ++ b) | _, _ => None end.
+Proof.
+  induction f1 as [|i t r IH]; intros l1 l2 Hl; cbn [fapp enc_fields nser] in *.
+  - destruct l1; [|discriminate]. cbn [app]. destruct (enc_fields f2 l2); reflexivity.
+  - destruct (f_ser i).
+    + destruct l1 as [|v l1]; [discriminate|]. cbn [app]. cbn [List.length] in Hl.
+      rewrite IH by lia.
+      destruct (enc t v) as [a|]; [|reflexivity].
+      destruct (enc_fields r l1) as [b|]; [|reflexivity].
+      destruct (enc_fields f2 l2) as [c|]; [|reflexivity].
+      now rewrite app_assoc.
+    + apply IH. lia.
+Qed.
+
+Definition cvl_Q0 (fs : fields) : Prop :=
+  forall vs, wt_fields fs vs = true -> List.length (canon_vals fs vs) = nser (canon_fields fs).
+Definition cvl_Q (t : ty) : Prop := match t with TStruct _ fs => cvl_Q0 fs | _ => True end.
+
+Lemma canon_vals_len_mut : (forall t, cvl_Q t) /\ (forall fs, cvl_Q0 fs).
+Proof.
+  apply ty_fields_ind; unfold cvl_Q, cvl_Q0; try (intros; exact I).
+  - intros nm fs IH. exact IH.
+  - intros vs H. reflexivity.
+  - intros i t IHt r IHr vs H. cbn [wt_fields canon_vals canon_fields] in *.
+    destruct (f_ser i); [|now apply IHr].
+    destruct vs as [|v vs]; [discriminate|]. apply andb_true_iff in H as [Hv Hr].
+    assert (Hdef : List.length (canon_val t v :: canon_vals r vs)
+                   = nser (FCons (rfield (jname i)) (canon t) (canon_fields r))).
+    { cbn [List.length nser rfield f_ser]. rewrite (IHr _ Hr). reflexivity. }
+    destruct t as [p| |nm p|t'|n t'|nm fs']; try exact Hdef.
+    destruct (f_emb i); [|exact Hdef].
+    cbn [wt] in Hv. destruct v as [| | |l]; try discriminate.
+    rewrite app_length, nser_fapp, (IHt _ Hv), (IHr _ Hr). reflexivity.
+Qed.
+
+Lemma enc_seq_map strict (f g : value -> option bytes) (h : value -> value) l :
+  Forall (fun v => f (h v) = g v) l -> enc_seq strict f (map h l) = enc_seq strict g l.
+Proof.
+  induction 1 as [|v l Hv _ IH]; cbn [map enc_seq]; [reflexivity|]. now rewrite Hv, IH.
+Qed.
+
+Definition bytes_P (t : ty) : Prop := forall v, wt t v = true -> enc (canon t) (canon_val t v) = enc t v.
+Definition bytes_P0 (fs : fields) : Prop :=
+  forall vs, wt_fields fs vs = true -> enc_fields (canon_fields fs) (canon_vals fs vs) = enc_fields fs vs.
+
+Lemma canon_bytes_mut : (forall t, bytes_P t) /\ (forall fs, bytes_P0 fs).
+Proof.
+  apply ty_fields_ind; unfold bytes_P, bytes_P0; try (intros; reflexivity).
+  - (* TSlice *) intros t IH v Hw. cbn [wt canon canon_val enc] in *.
+    destruct v as [| | |l]; try discriminate. apply andb_true_iff in Hw as [_ Hall].
+    unfold len. rewrite map_length.
+    rewrite (enc_seq_map true (enc (canon t)) (enc t) (canon_val t) l); [reflexivity|].
+    apply forallb_Forall in Hall. eapply Forall_impl; [|exact Hall]. intros a Ha. now apply IH.
+  - (* TArray *) intros n t IH v Hw. cbn [wt canon canon_val enc] in *.
+    destruct v as [| | |l]; try discriminate. apply andb_true_iff in Hw as [_ Hall].
+    unfold len. rewrite map_length.
+    rewrite (enc_seq_map false (enc (canon t)) (enc t) (canon_val t) l); [reflexivity|].
+    apply forallb_Forall in Hall. eapply Forall_impl; [|exact Hall]. intros a Ha. now apply IH.
+  - (* TStruct *) intros nm fs IH v Hw. cbn [wt canon canon_val enc] in *.
+    destruct v as [| | |l]; try discriminate. now apply IH.
+  - (* FNil *) intros vs Hw. cbn [wt_fields] in Hw. destruct vs; [reflexivity | discriminate].
+  - (* FCons *) intros i t IHt r IHr vs Hw. cbn [wt_fields canon_fields canon_vals enc_fields] in *.
+    destruct (f_ser i); [|now apply IHr].
+    destruct vs as [|v vs]; [discriminate|]. apply andb_true_iff in Hw as [Hv Hr].
+    assert (Hdef : enc_fields (FCons (rfield (jname i)) (canon t) (canon_fields r)) (canon_val t v :: canon_vals r vs)
+                   = match enc t v, enc_fields r vs with Some a, Some b => Some (a ++ b) | _, _ => None end).
+    { cbn [enc_fields rfield f_ser]. now rewrite (IHt _ Hv), (IHr _ Hr). }
+    destruct t as [p| |nm p|t'|n t'|nm fs']; try exact Hdef.
+    destruct (f_emb i); [|exact Hdef].
+    cbn [wt] in Hv. destruct v as [| | |l]; try discriminate.
+    rewrite enc_fields_app by (apply (proj1 canon_vals_len_mut (TStruct nm fs')); exact Hv).
+    specialize (IHt (VList l) Hv). cbn [canon canon_val enc] in IHt.
+    rewrite IHt, (IHr _ Hr). reflexivity.
+Qed.
+
+Lemma canon_bytes t v : wt t v = true -> enc (canon t) (canon_val t v) = enc t v.
+Proof. apply (proj1 canon_bytes_mut). Qed.
+
+(* the flattened value is a value of the reflected type *)
+Lemma wt_fields_app f1 f2 : forall l1 l2, wt_fields f1 l1 = true -> wt_fields f2 l2 = true ->
+  wt_fields (fapp f1 f2) (l1 ++ l2) = true.
+Proof.
+  induction f1 as [|i t r IH]; intros l1 l2 H1 H2; cbn [fapp wt_fields] in *.
+  - destruct l1; [exact H2 | discriminate].
+  - destruct (f_ser i).
+    + destruct l1 as [|v l1]; [discriminate|]. apply andb_true_iff in H1 as [Hv Hr]. cbn [app].
+      rewrite Hv. cbn [andb]. now apply IH.
+    + now apply IH.
+Qed.
+
+Definition cwt_P (t : ty) : Prop := forall v, wt t v = true -> wt (canon t) (canon_val t v) = true.
+Definition cwt_P0 (fs : fields) : Prop :=
+  forall vs, wt_fields fs vs = true -> wt_fields (canon_fields fs) (canon_vals fs vs) = true.
+
+Lemma canon_wt_mut : (forall t, cwt_P t) /\ (forall fs, cwt_P0 fs).
+Proof.
+  apply ty_fields_ind; unfold cwt_P, cwt_P0; try (intros; assumption).
+  - intros t IH v Hw. cbn [wt canon canon_val] in *.
+    destruct v as [| | |l]; try discriminate. apply andb_true_iff in Hw as [Hl Hall].
+    unfold len in *. rewrite map_length, Hl. cbn [andb].
+    rewrite forallb_forall in *. intros x Hx. apply in_map_iff in Hx as (y & <- & Hy). apply IH. now apply Hall.
+  - intros n t IH v Hw. cbn [wt canon canon_val] in *.
+    destruct v as [| | |l]; try discriminate. apply andb_true_iff in Hw as [Hl Hall].
+    unfold len in *. rewrite map_length, Hl. cbn [andb].
+    rewrite forallb_forall in *. intros x Hx. apply in_map_iff in Hx as (y & <- & Hy). apply IH. now apply Hall.
+  - intros nm fs IH v Hw. cbn [wt canon canon_val] in *.
+    destruct v as [| | |l]; try discriminate. now apply IH.
+  - intros vs _. reflexivity.
+  - intros i t IHt r IHr vs Hw. cbn [wt_fields canon_fields canon_vals] in *.
+    destruct (f_ser i); [|now apply IHr].
+    destruct vs as [|v vs]; [discriminate|]. apply andb_true_iff in Hw as [Hv Hr].
+    assert (Hdef : wt_fields (FCons (rfield (jname i)) (canon t) (canon_fields r)) (canon_val t v :: canon_vals r vs) = true).
+    { cbn [wt_fields rfield f_ser]. now rewrite (IHt _ Hv), (IHr _ Hr). }
+    destruct t as [p| |nm p|t'|n t'|nm fs']; try exact Hdef.
+    destruct (f_emb i); [|exact Hdef].
+    cbn [wt] in Hv. destruct v as [| | |l]; try discriminate.
+    specialize (IHt (VList l) Hv). cbn [canon canon_val wt] in IHt.
+    apply wt_fields_app; [exact IHt | now apply IHr].
+Qed.
+
+Lemma canon_wt t v : wt t v = true -> wt (canon t) (canon_val t v) = true.
+Proof. apply (proj1 canon_wt_mut). Qed.
